@@ -8,6 +8,11 @@ var Monitors = map[string]func(*core.Run){
 	"C02": RunC02,
 	"C03": RunC03,
 	"C04": RunC04,
+	"C05": RunC05,
+	"C06": RunC06,
+	"C07": RunC07,
+	"C08": RunC08,
+	"C09": RunC09,
 	"C10": RunC10,
 	"C14": RunC14,
 	"C15": RunC15,
